@@ -297,8 +297,16 @@ fn create_semantic_token(
     token_modifier: u32,
 ) -> SemanticToken {
     let Position { line, character } = as_position(token.range.start, text);
-    // LSP lengths count UTF-16 code units, not bytes
-    let length = text[token.range.clone()]
+    // LSP lengths count UTF-16 code units, not bytes.
+    // A token must not reach into the next line:
+    // the line break at the end of a comment belongs to its token, but not to its length.
+    let token_text = &text[token.range.clone()];
+    let token_text = if matches!(token.token_type, TokenType::Comment(_)) {
+        token_text.trim_end_matches(['\r', '\n'])
+    } else {
+        token_text
+    };
+    let length = token_text
         .encode_utf16()
         .count()
         .try_into()
